@@ -6,7 +6,7 @@ export CARGO_NET_OFFLINE=true
 mkdir -p .work evidence replays
 cp /repo/Cargo.lock harness/Cargo.lock
 (cd harness && cargo build --offline)
-for t in translator/consts.py translator/accounts.py translator/skeleton.py translator/txlists.py; do
+for t in translator/consts.py translator/accounts.py translator/skeleton.py translator/txlists.py translator/oracles.py; do
   [ -f "$t" ] && python3 "$t"
 done
 (cd lean && lake build Mfi driver)
